@@ -4,6 +4,7 @@ import (
 	"fmt"
 	"go/token"
 	"go/types"
+	"strings"
 
 	"crverif/internal/an"
 	"crverif/internal/load"
@@ -55,6 +56,291 @@ func runC12(c *Ctx) {
 		}
 	}
 	c.R.Floor("R-C12-1", 20)
+	c12Fields(c, reach)
+	c12Absent(c)
+	c12Report(c)
+}
+
+// sideOf walks an expression down to the parameter of a check* function that
+// it is derived from and returns the parameter index (-1 if none / mixed).
+func sideOf(e *an.Expr) int {
+	side := -2
+	e.Walk(func(x *an.Expr) bool {
+		if x.Op == an.OpParam {
+			if side == -2 {
+				side = x.Idx
+			} else if side != x.Idx {
+				side = -1
+			}
+		}
+		return true
+	})
+	if side == -2 {
+		return -1
+	}
+	return side
+}
+
+// terminalField names what is compared: the last field selected, or len(field), or "param".
+func terminalField(e *an.Expr) string {
+	switch e.Op {
+	case an.OpField:
+		return e.Name
+	case an.OpLen:
+		return "len(" + terminalField(e.Args[0]) + ")"
+	case an.OpElem:
+		return terminalField(e.Args[0]) + "[]"
+	case an.OpParam:
+		return "param"
+	case an.OpCall:
+		if len(e.Args) > 0 {
+			return "options"
+		}
+	case an.OpExtract:
+		return terminalField(e.Args[0])
+	}
+	return "?"
+}
+
+func c12Fields(c *Ctx, reach map[*ssa.Function]bool) {
+	want := map[string][]string{
+		"corerad.checkRAs":           {"CurrentHopLimit", "ManagedConfiguration", "OtherConfiguration"},
+		"corerad.checkDurations":     {"param"},
+		"corerad.checkMTUs":          {"MTU"},
+		"corerad.checkPrefixes":      {"Prefix", "PrefixLength", "PreferredLifetime", "ValidLifetime"},
+		"corerad.checkRoutes":        {"Prefix", "PrefixLength", "Preference", "RouteLifetime"},
+		"corerad.checkRDNSS":         {"len(options)", "Lifetime", "len(Servers)", "Servers[]"},
+		"corerad.checkDNSSL":         {"len(options)", "Lifetime", "len(DomainNames)", "DomainNames[]"},
+		"corerad.checkCaptivePortal": {"URI"},
+	}
+	for fn := range reach {
+		name := c.fname(fn)
+		w, ok := want[name]
+		if !ok {
+			continue
+		}
+		got := map[string]bool{}
+		for _, b := range fn.Blocks {
+			for _, in := range b.Instrs {
+				bo, isBO := in.(*ssa.BinOp)
+				if !isBO || (bo.Op != token.EQL && bo.Op != token.NEQ) {
+					continue
+				}
+				x, y := c.XO.Of(bo.X), c.XO.Of(bo.Y)
+				if x.Op == an.OpConst || y.Op == an.OpConst {
+					// zero tests of checkDurations / len == 0 guards: owned by R-C12-3
+					continue
+				}
+				sx, sy := sideOf(x), sideOf(y)
+				fx, fy := terminalField(x), terminalField(y)
+				okSides := sx >= 0 && sy >= 0 && sx != sy
+				okField := fx == fy
+				got[fx] = true
+				c.R.Check(okSides && okField, "R-C12-2", fmt.Sprintf("%s:compares:%s", name, fx), name, c.pos(bo.Pos()),
+					fmt.Sprintf("%s (side %d) %s %s (side %d)", x, sx, bo.Op, y, sy), "one operand from each RA, the same field on both sides",
+					"a field of one RA is compared with itself or with a different field of the other RA")
+			}
+		}
+		var gk []string
+		for k := range got {
+			gk = append(gk, k)
+		}
+		c.R.Check(sameSet(gk, w), "R-C12-2", name+":compared-fields", name, c.pos(fn.Pos()), fmt.Sprintf("compares %v", keysOf(got)), fmt.Sprintf("exactly %v", w),
+			"the set of compared fields differs from RFC 4861 6.2.7 and the documented extensions (a field dropped or added)")
+	}
+	c.R.Floor("R-C12-2", 25)
+	// label ↔ field pairing of every push call
+	labels := map[string]string{
+		`"hop_limit"`: "CurrentHopLimit", `"managed_configuration"`: "ManagedConfiguration", `"other_configuration"`: "OtherConfiguration",
+		`"reachable_time"`: "ReachableTime", `"retransmit_timer"`: "RetransmitTimer", `"mtu"`: "MTU",
+		`"prefix_information_preferred_lifetime"`: "PreferredLifetime", `"prefix_information_valid_lifetime"`: "ValidLifetime",
+		`"route_information_lifetime"`: "RouteLifetime", `"rdnss_count"`: "len", `"rdnss_lifetime"`: "Lifetime", `"rdnss_servers"`: "Servers",
+		`"dnssl_count"`: "len", `"dnssl_lifetime"`: "Lifetime", `"dnssl_domain_names"`: "DomainNames", `"captive_portal"`: "URI",
+	}
+	seen := map[string]bool{}
+	for fn := range reach {
+		for _, ci := range an.CallsIn(fn) {
+			if !an.CallIs(ci.Common(), PkgCorerad, "problems", "push") {
+				continue
+			}
+			args := ci.Common().Args
+			lbl := c.XO.Of(args[1])
+			wantE, gotE := c.XO.Of(args[3]), c.XO.Of(args[4])
+			field, known := labels[lbl.String()]
+			seen[lbl.String()] = true
+			ok := known && sideOf(wantE) == 0 && sideOf(gotE) == 1 &&
+				(strings.Contains(wantE.String(), field) || field == "len") && (strings.Contains(gotE.String(), field) || field == "len")
+			if field == "len" {
+				ok = ok && wantE.Op == an.OpLen && gotE.Op == an.OpLen
+			}
+			c.R.Check(ok, "R-C12-2", fmt.Sprintf("%s:push:%s", c.fname(fn), lbl), c.fname(fn), c.pos(ci.Pos()), fmt.Sprintf("push(%s, want=%s, got=%s)", lbl, wantE, gotE),
+				"want from our RA, got from the received RA, both the field the label names", "an inconsistency is reported under the wrong label or with swapped/foreign values")
+		}
+	}
+	for l := range labels {
+		c.R.Check(seen[l], "R-C12-2", "corerad.verify:label:"+l, "", "", fmt.Sprintf("push site for %s: %v", l, seen[l]), "every documented inconsistency kind is reported", "a documented inconsistency is never reported")
+	}
+	// checkDurations: consistent when either is zero
+	if f := c.P.Func("internal/corerad", "checkDurations"); f != nil {
+		okZero, okEq := 0, false
+		for _, p := range c.pathsO("R-C12-2", f, an.PathOpts{}) {
+			if p.Ret == nil {
+				continue
+			}
+			zero := false
+			for _, a := range p.Atoms {
+				x, y, op, ok := effCmp(a)
+				if ok && x.Op == an.OpParam && op == token.EQL {
+					if k, isC := y.ConstInt(); isC && k == 0 {
+						zero = true
+					}
+				}
+			}
+			if zero && p.Results[0].IsConst("true") {
+				okZero++
+			}
+			if !zero && p.Results[0].Op == an.OpBin && p.Results[0].Tok == token.EQL {
+				okEq = true
+			}
+		}
+		c.R.Check(okZero == 2 && okEq, "R-C12-2", c.fname(f)+":unspecified-is-consistent", c.fname(f), c.pos(f.Pos()), fmt.Sprintf("zero on either side ⇒ true: %d arm(s); otherwise want == got: %v", okZero, okEq),
+			"timers are compared only when both are non-zero", "an unspecified (0) timer is reported as inconsistent")
+	}
+	// the helper is applied to the like-named timers of both RAs
+	if f := c.P.Func("internal/corerad", "checkRAs"); f != nil {
+		for _, ci := range an.CallsIn(f) {
+			if an.CallIs(ci.Common(), PkgCorerad, "", "checkDurations") {
+				a, b := c.XO.Of(ci.Common().Args[0]), c.XO.Of(ci.Common().Args[1])
+				ok := a.Op == an.OpField && b.Op == an.OpField && a.Name == b.Name && sideOf(a) == 0 && sideOf(b) == 1 && (a.Name == "ReachableTime" || a.Name == "RetransmitTimer")
+				c.R.Check(ok, "R-C12-2", c.fname(f)+":timer:"+a.Name, c.fname(f), c.pos(ci.Pos()), fmt.Sprintf("checkDurations(%s, %s)", a, b), "checkDurations(a.X, b.X) for X in ReachableTime, RetransmitTimer", "timers compared crosswise")
+			}
+		}
+	}
+}
+
+func c12Absent(c *Ctx) {
+	n := 0
+	for _, name := range []string{"checkMTUs", "checkPrefixes", "checkRoutes", "checkRDNSS", "checkDNSSL", "checkCaptivePortal"} {
+		f := c.needFunc("R-C12-3", "internal/corerad", name)
+		if f == nil {
+			continue
+		}
+		absentSeen := map[int]bool{}
+		for _, p := range c.pathsO("R-C12-3", f, an.PathOpts{EmitCut: true}) {
+			// absent on side s: len(pick(param s)) == 0  or  !pickFirst(param s)#1
+			absent := -1
+			for _, a := range p.Atoms {
+				x, y, op, ok := effCmp(a)
+				if ok && x.Op == an.OpLen && op == token.EQL {
+					if k, isC := y.ConstInt(); isC && k == 0 {
+						absent = sideOf(x)
+					}
+				}
+				if !a.Pos && a.Cond.Op == an.OpExtract && a.Cond.Idx == 1 {
+					absent = sideOf(a.Cond)
+				}
+			}
+			if absent < 0 {
+				continue
+			}
+			absentSeen[absent] = true
+			pushes := callsOnPath(p, func(cc *ssa.CallCommon) bool { return an.CallIs(cc, PkgCorerad, "problems", "push") })
+			ok := p.Ret != nil && (exprIsNil(p.Results[0]) || exprIsZero(p.Results[0])) && len(pushes) == 0
+			n++
+			c.R.Check(ok, "R-C12-3", fmt.Sprintf("corerad.%s:absent-side-%d", name, absent), "corerad."+name, c.pos(f.Pos()), fmt.Sprintf("ends in %s with %d push(es), returns %v", pathKind(p), len(pushes), exprStrings(p.Results)),
+				"nothing is reported for an option absent on either side", "an option missing from one RA is reported as an inconsistency")
+		}
+		c.R.Check(absentSeen[0] && absentSeen[1], "R-C12-3", "corerad."+name+":tests-both-sides", "corerad."+name, c.pos(f.Pos()), fmt.Sprintf("absence tested on our side: %v, their side: %v", absentSeen[0], absentSeen[1]),
+			"absence is tested on both sides before comparing", "comparison runs (or panics) when one side lacks the option")
+	}
+	c.R.Check(n >= 12, "R-C12-3", "corerad.verify:absent-paths", "", "", fmt.Sprintf("%d absent path(s)", n), ">= 12", "anchor-missing")
+}
+
+func c12Report(c *Ctx) {
+	h := c.needMethod("R-C12-4", "internal/corerad", "Advertiser", "handle")
+	if h == nil {
+		return
+	}
+	fn := c.fname(h)
+	for _, p := range c.pathsO("R-C12-4", h, an.PathOpts{EmitCut: true}) {
+		if !strings.HasSuffix(typeSwitchArm(p), "RouterAdvertisement") {
+			continue
+		}
+		// verifyRAs(want, m) with want = buildRA(a.cfg)#0
+		vs := callsOnPath(p, func(cc *ssa.CallCommon) bool { return an.CallIs(cc, PkgCorerad, "", "verifyRAs") })
+		empty, tested := false, false
+		for _, a := range p.Atoms {
+			x, y, op, ok := effCmp(a)
+			if ok && x.Op == an.OpLen && exprCallIs(x.Args[0], PkgCorerad, "", "verifyRAs") {
+				if k, isC := y.ConstInt(); isC && k == 0 {
+					tested = true
+					empty = op == token.EQL
+				}
+			}
+		}
+		ems := metricEmits(p)["AdvRouterAdvertisementInconsistenciesTotal"]
+		var hooks []ssa.CallInstruction
+		p.Instrs(func(in ssa.Instruction) {
+			if ci, ok := in.(ssa.CallInstruction); ok {
+				if _, ok := fieldLoadCall(ci.Common(), PkgCorerad, "Advertiser", "OnInconsistentRA"); ok {
+					hooks = append(hooks, ci)
+				}
+			}
+		})
+		if len(vs) == 0 {
+			// buildRA failed
+			c.R.Check(len(ems) == 0 && len(hooks) == 0, "R-C12-4", fn+":no-verdict-without-own-ra@"+pathShape(p), fn, c.pos(h.Pos()), fmt.Sprintf("%d counter(s), %d hook(s) without a verification", len(ems), len(hooks)), "nothing reported when our own RA cannot be built", "report without verification")
+			continue
+		}
+		want := p.Of(vs[0].Common().Args[0])
+		b, i := stripExtract(want)
+		okWant := i == 0 && exprCallIs(b, PkgCorerad, "Advertiser", "buildRA") && b.Args[1].IsField("cfg")
+		okTheirs := p.Of(vs[0].Common().Args[1]).Op == an.OpExtract
+		if !tested {
+			c.R.Fail("R-C12-4", fn+":verdict-untested@"+pathShape(p), fn, c.pos(h.Pos()), "len(problems) not tested", "reporting depends on len(problems)", "reporting not conditioned on the verdict")
+			continue
+		}
+		if empty {
+			logs := callsOnPath(p, func(cc *ssa.CallCommon) bool { return an.CallIs(cc, PkgCorerad, "Advertiser", "logf") })
+			c.R.Check(okWant && okTheirs && len(ems) == 0 && len(hooks) == 0 && len(logs) == 0, "R-C12-4", fn+":consistent-is-silent", fn, c.pos(h.Pos()), fmt.Sprintf("%d counter(s), %d hook(s), %d log line(s); want=%s", len(ems), len(hooks), len(logs), want),
+				"a consistent RA produces no log, counter or hook", "a consistent RA is reported")
+			continue
+		}
+		// inconsistent: loop body path has exactly one emission per problem; tail path fires the hook once iff non-nil
+		hookNonNil, hookTested := false, false
+		for _, a := range p.Atoms {
+			x, y, op, ok := effCmp(a)
+			if ok && x.IsField("OnInconsistentRA") && exprIsNil(y) {
+				hookTested = true
+				hookNonNil = op == token.NEQ
+			}
+		}
+		if p.Cut {
+			ok := len(ems) == 1 && len(hooks) == 0
+			fact := fmt.Sprintf("%d counter emission(s) per problem", len(ems))
+			if ok {
+				args := ems[0].Common().Args
+				l := p.Of(args[1])
+				ok = l.Op == an.OpStruct && len(l.Args) == 3 && l.Args[0].IsField("Name") && l.Args[1].IsField("Details") && l.Args[1].Args[0].Op == an.OpElem && l.Args[2].IsField("Field") && l.Args[2].Args[0].Op == an.OpElem
+				fact += "; labels " + l.String()
+			}
+			c.R.Check(ok, "R-C12-4", fn+":one-count-per-problem", fn, c.pos(h.Pos()), fact, "exactly one AdvRouterAdvertisementInconsistenciesTotal(1, cfg.Name, p.Details, p.Field) per problem", "inconsistencies are counted under the wrong labels or not once each")
+			continue
+		}
+		if p.Ret != nil && hookTested {
+			wantHooks := 0
+			if hookNonNil {
+				wantHooks = 1
+			}
+			ok := len(hooks) == wantHooks
+			if ok && wantHooks == 1 {
+				a0, a1 := p.Of(hooks[0].Common().Args[0]), p.Of(hooks[0].Common().Args[1])
+				ok = sameValue(a0, want) && a1.Op == an.OpExtract
+			}
+			c.R.Check(ok, "R-C12-4", fmt.Sprintf("%s:hook@set=%v", fn, hookNonNil), fn, c.pos(p.Ret.Pos()), fmt.Sprintf("%d hook call(s)", len(hooks)), "the hook fires exactly once iff it is set and there is at least one problem, with (ours, theirs)", "notification hook fired wrongly")
+		}
+	}
+	c.R.Floor("R-C12-4", 4)
 }
 
 func typeStr(t types.Type) string {
